@@ -76,3 +76,161 @@ func addNoWrap(a, b uint64) (uint64, bool) {
 	s := a + b
 	return s, s >= a
 }
+
+// ---- independent well-formedness walker for emitted bundles (C04) ----
+
+func refShortestHead(arg uint64, used uint64) bool {
+	switch {
+	case arg < 24:
+		return used == 1
+	case arg < 1<<8:
+		return used == 2
+	case arg < 1<<16:
+		return used == 3
+	case arg < 1<<32:
+		return used == 5
+	}
+	return used == 9
+}
+
+// refItemCanon walks ONE CBOR item at b[pos:] over major types 0,2,3,4,5 requiring canonical form (shortest
+// heads, map keys strictly ascending bytewise by encoded key) and returns the position after it.
+func refItemCanon(b []byte, pos uint64) (uint64, bool) {
+	m, arg, next, ok := refReadHead(b, pos)
+	if !ok || !refShortestHead(arg, next-pos) {
+		return 0, false
+	}
+	switch m {
+	case 0:
+		return next, true
+	case 2, 3:
+		if arg > uint64(len(b))-next {
+			return 0, false
+		}
+		return next + arg, true
+	case 4:
+		p := next
+		for i := uint64(0); i < arg; i++ {
+			var ok bool
+			p, ok = refItemCanon(b, p)
+			if !ok {
+				return 0, false
+			}
+		}
+		return p, true
+	case 5:
+		p := next
+		var prev []byte
+		for i := uint64(0); i < arg; i++ {
+			ke, ok := refItemCanon(b, p)
+			if !ok {
+				return 0, false
+			}
+			key := b[p:ke]
+			if i > 0 && !refBytesLess(prev, key) {
+				return 0, false
+			}
+			prev = key
+			p, ok = refItemCanon(b, ke)
+			if !ok {
+				return 0, false
+			}
+		}
+		return p, true
+	}
+	return 0, false
+}
+
+func refBytesLess(a, b []byte) bool {
+	for i := 0; i < len(a) && i < len(b); i++ {
+		if a[i] != b[i] {
+			return a[i] < b[i]
+		}
+	}
+	return len(a) < len(b)
+}
+
+type refSection struct {
+	name       string
+	start, end uint64
+}
+
+// refWellFormedBundle checks the whole layout of an emitted bundle and returns its sections.
+func refWellFormedBundle(out []byte, b1 bool) ([]refSection, bool) {
+	magic := []byte{0x85, 0x48, 0xf0, 0x9f, 0x8c, 0x90, 0xf0, 0x9f, 0x93, 0xa6, 0x44, 0x62, 0x32, 0x00, 0x00}
+	if b1 {
+		magic[0] = 0x86
+		magic[12] = 0x31
+	}
+	if len(out) < len(magic) || string(out[:len(magic)]) != string(magic) {
+		return nil, false
+	}
+	pos := uint64(len(magic))
+	if b1 {
+		// primary URL text string
+		m, l, next, ok := refReadHead(out, pos)
+		if !ok || m != 3 || !refShortestHead(l, next-pos) || l > uint64(len(out))-next {
+			return nil, false
+		}
+		pos = next + l
+	}
+	// section-lengths: bstr containing array of (tstr name, uint length) pairs
+	m, l, next, ok := refReadHead(out, pos)
+	if !ok || m != 2 || !refShortestHead(l, next-pos) || l > uint64(len(out))-next {
+		return nil, false
+	}
+	tbl := out[next : next+l]
+	pos = next + l
+	tm, tn, tp, ok := refReadHead(tbl, 0)
+	if !ok || tm != 4 || !refShortestHead(tn, tp) || tn%2 != 0 {
+		return nil, false
+	}
+	var secs []refSection
+	for i := uint64(0); i < tn/2; i++ {
+		nm, nl, np, ok := refReadHead(tbl, tp)
+		if !ok || nm != 3 || !refShortestHead(nl, np-tp) || nl > uint64(len(tbl))-np {
+			return nil, false
+		}
+		name := string(tbl[np : np+nl])
+		lm, ll, lp, ok := refReadHead(tbl, np+nl)
+		if !ok || lm != 0 || !refShortestHead(ll, lp-(np+nl)) {
+			return nil, false
+		}
+		secs = append(secs, refSection{name: name, end: ll})
+		tp = lp
+	}
+	if tp != uint64(len(tbl)) || len(secs) == 0 || secs[len(secs)-1].name != "responses" {
+		return nil, false
+	}
+	// array header with one entry per section
+	am, an, ap, ok := refReadHead(out, pos)
+	if !ok || am != 4 || an != uint64(len(secs)) || !refShortestHead(an, ap-pos) {
+		return nil, false
+	}
+	pos = ap
+	for i := range secs {
+		secs[i].start = pos
+		secs[i].end = pos + secs[i].end
+		if secs[i].end > uint64(len(out)) {
+			return nil, false
+		}
+		// each section is exactly one canonical CBOR item
+		e, ok := refItemCanon(out[:secs[i].end], secs[i].start)
+		if !ok || e != secs[i].end {
+			return nil, false
+		}
+		pos = secs[i].end
+	}
+	// footer: 48 + 8-byte big-endian total length
+	if uint64(len(out)) != pos+9 || out[pos] != 0x48 {
+		return nil, false
+	}
+	var total uint64
+	for i := uint64(1); i <= 8; i++ {
+		total = total<<8 | uint64(out[pos+i])
+	}
+	if total != uint64(len(out)) {
+		return nil, false
+	}
+	return secs, true
+}
